@@ -12,6 +12,7 @@ import (
 	"runtime"
 	"sync"
 	"testing"
+	"time"
 
 	"github.com/reactivego/ivg"
 	"github.com/reactivego/ivg/decode"
@@ -46,7 +47,7 @@ type Case struct {
 	Streams []ops.Hex `json:"streams"` // generated graphics shared by all goroutines
 }
 
-var jobKinds = []string{"render", "transcode", "disassemble", "viewbox", "generate", "resolve", "aspect", "color1", "options", "pathdata", "recorder", "zeroenc", "validate", "keepmeta", "reuseenc", "reuseenc", "manystops"}
+var jobKinds = []string{"render", "transcode", "disassemble", "viewbox", "generate", "resolve", "aspect", "color1", "options", "pathdata", "recorder", "zeroenc", "validate", "keepmeta", "reuseenc", "reuseenc", "manystops", "nestedoption"}
 
 // shared state: one palette array read by everybody
 var sharedPalette = func() [64]color.RGBA {
@@ -117,6 +118,21 @@ var sharedStops, sharedStopsCopy = func() ([]generate.GradientStop, []generate.G
 func runJob(w *worker, j Job, inputs [][]byte) uint64 {
 	in := inputs[j.Input%len(inputs)]
 	switch j.Kind {
+	case "nestedoption":
+		// a caller-written option that decodes another graphic itself (to borrow its palette)
+		other := inputs[(j.Input+1)%len(inputs)]
+		var borrowed [64]color.RGBA
+		var nestedErr error
+		rec := &ops.Recorder{}
+		err := decode.Decode(rec, in, func(m *ivg.Metadata) {
+			nestedErr = decode.Decode(nil, other, decode.WithColorAt(j.Param%64, color.Gray{uint8(j.Param)}), func(n *ivg.Metadata) { borrowed = n.Palette })
+			m.Palette[1] = borrowed[j.Param%64]
+		})
+		p := [64]color.RGBA{}
+		if len(rec.Ops) > 0 {
+			p = rec.Ops[0].Palette()
+		}
+		return hash([]byte(fmt.Sprint(p, len(rec.Ops), err, nestedErr)))
 	case "keepmeta":
 		// the caller keeps the metadata it was handed (the only way to learn the decoded palette
 		// without a Destination) and reads it after Decode has returned
@@ -241,6 +257,9 @@ func runJob(w *worker, j Job, inputs [][]byte) uint64 {
 		for t := 0; t < 64; t++ {
 			c := ivg.BlendColor(uint8(t*4+j.Param), uint8(0x80+t), uint8(0xc0+(t+j.Param)%64)).Resolve(&sharedPalette, &creg)
 			acc = append(acc, c.R, c.G, c.B, c.A)
+			// ... and of two direct one-byte colours
+			c = ivg.BlendColor(uint8(t*3+j.Param), uint8((t+j.Param)%128), uint8((t*7+j.Param)%128)).Resolve(&sharedPalette, &creg)
+			acc = append(acc, c.R, c.G, c.B, c.A)
 			c = ivg.PaletteIndexColor(uint8(t)).Resolve(&sharedPalette, &creg)
 			acc = append(acc, c.R, c.G, c.B, c.A)
 		}
@@ -308,7 +327,14 @@ func raceLogTail(from int64) string {
 	return string(b)
 }
 
+// wedged: a concurrent phase never finished (pipelines waiting for each other). Nothing that
+// decodes can be trusted to return in this process any more.
+var wedged error
+
 func checkConcurrent(c Case) error {
+	if wedged != nil {
+		return wedged
+	}
 	// shared inputs
 	var inputs [][]byte
 	byName := map[string][]byte{}
@@ -351,7 +377,15 @@ func checkConcurrent(c Case) error {
 		}(g, list)
 	}
 	close(start)
-	wg.Wait()
+	finished := make(chan struct{})
+	go func() { wg.Wait(); close(finished) }()
+	select {
+	case <-finished:
+	case <-time.After(3 * time.Minute): // the phase takes a second or two
+		runtime.GOMAXPROCS(old)
+		wedged = harness.Violatef("c18/deadlock", "%d goroutines running independent pipelines did not finish within three minutes: pipelines wait for each other", len(c.Lists))
+		return wedged
+	}
 	runtime.GOMAXPROCS(old)
 
 	// serial results, computed after the concurrent phase so that the first case of a process
